@@ -154,8 +154,8 @@ impl Matcher for MultiExecMatcher {
         } else {
             file_info.path().to_path_buf()
         };
-        let mut command = self.command.borrow_mut();
-        let command = command.get_or_insert_with(|| self.new_command());
+        let mut pending = self.command.borrow_mut();
+        let command = pending.get_or_insert_with(|| self.new_command());
 
         // Build command, or dispatch it before when it is long enough.
         if command.try_arg(&path_to_file).is_err() {
@@ -186,6 +186,15 @@ impl Matcher for MultiExecMatcher {
                 )
                 .unwrap();
                 matcher_io.set_exit_code(1);
+            }
+        }
+        if self.exec_in_parent_dir && file_info.path().parent().is_none() {
+            // Root paths like "/" have no parent directory, so no
+            // finished_dir() call will ever cover them: run the command now,
+            // from the root to match GNU find.
+            if let Some(mut command) = pending.take() {
+                command.current_dir(file_info.path());
+                self.run_command(&mut command, matcher_io);
             }
         }
         true
